@@ -27,7 +27,7 @@ pub const ITER_REAL: &[&str] = &[
 pub const ITER_STUB: &[&str] = &[
     "thread scheduling (simulator baton)",
     "asynchronous signal arrival (direct call of the kernel-reported disposition at a chosen scheduling point, incl. nested on the consumer)",
-    "the async reactor behind poll_signal's readiness callback: a stub doing a real non-blocking 1-byte read and otherwise arming a wake-up on the descriptor",
+    "the async reactor behind poll_signal's readiness callback: a stub doing a real non-blocking 1-byte read and otherwise arming a wake-up on the descriptor (7/8 of the runs); 1/8 of the C09/C11 runs drive the REAL signal-hook-tokio Stream on a real current-thread tokio runtime polled by hand, and 1/64 of the C11 runs are a sequential conformance scenario of the REAL signal-hook-async-std Stream on async-io",
 ];
 
 pub const PROPS: &[Prop] = &[
@@ -74,7 +74,7 @@ pub const PROPS: &[Prop] = &[
         probes: &[(E_ITER_CLOSE_BETWEEN_CHECKS, "close_overlapped_consumer_call"), (E_ITER_PENDING, "poll_returned_pending"), (E_ITER_CLOSE_WHILE_BLOCKED, "close_while_consumer_blocked"), (E_ITER_YIELDS, "values_yielded")],
         real: ITER_REAL,
         stub: ITER_STUB,
-        assumptions: &["real tokio / async-io adapters are not part of the interleaving search (stub reactor)"],
+        assumptions: &["tokio internals between two scheduling points of signal-hook code run atomically", "the async-io conformance scenario is sequential (its reactor thread is outside the simulator); its only real-time element is a 5 s bound on a wake-up"],
     },
 ];
 
@@ -86,6 +86,8 @@ enum Mode {
     Forever,
     Pending,
     Poll,
+    /// the real signal-hook-tokio Stream on a real current-thread tokio runtime, polled by hand
+    Tokio,
 }
 
 struct DeliveryRec {
@@ -487,6 +489,188 @@ where
 }
 
 // ---------------------------------------------------------------------------------------------
+// the real tokio adapter under the simulator
+
+struct CountWake(std::sync::atomic::AtomicUsize);
+impl std::task::Wake for CountWake {
+    fn wake(self: std::sync::Arc<Self>) {
+        self.0.fetch_add(1, std::sync::atomic::Ordering::SeqCst);
+    }
+}
+
+fn consume_tokio<E>(rt: tokio::runtime::Runtime, mut st: signal_hook_tokio::SignalsInfo<E>, read_fd: i32)
+where
+    E: Exfiltrator,
+    E::Output: Out,
+{
+    use futures_core::Stream;
+    use std::pin::Pin;
+    use std::task::{Context, Poll};
+    let h = st.handle();
+    let cw = std::sync::Arc::new(CountWake(std::sync::atomic::AtomicUsize::new(0)));
+    let waker = std::task::Waker::from(cw.clone());
+    let _enter = rt.enter();
+    loop {
+        call_begin();
+        let r = {
+            let mut cx = Context::from_waker(&waker);
+            Pin::new(&mut st).poll_next(&mut cx)
+        };
+        call_end();
+        match r {
+            Poll::Ready(Some(o)) => {
+                sim::log(UE_POLL, 1, 0);
+                record_yield(&o);
+            }
+            Poll::Ready(None) => {
+                sim::log(UE_POLL, 3, 0);
+                if !h.is_closed() {
+                    let _g = ShimGuard::new();
+                    sim::report("C11", "closed-reported-while-open", "the tokio stream ended although the instance is not closed", true);
+                }
+                break;
+            }
+            Poll::Pending => {
+                sim::log(UE_POLL, 2, 0);
+                sim::count(E_ITER_PENDING, 1);
+                // park like a task would: only the waker handed to poll_next can bring us back
+                let mut turns_without_wake = 0;
+                loop {
+                    sim::sp_user();
+                    {
+                        let _g = ShimGuard::new();
+                        rt.block_on(tokio::task::yield_now()); // one non-blocking reactor turn
+                    }
+                    if cw.0.swap(0, std::sync::atomic::Ordering::SeqCst) > 0 {
+                        break;
+                    }
+                    let readable = {
+                        let mut p = libc::pollfd { fd: read_fd, events: libc::POLLIN, revents: 0 };
+                        unsafe { libc::poll(&mut p, 1, 0) > 0 }
+                    };
+                    if readable {
+                        turns_without_wake += 1;
+                        if turns_without_wake > 3 {
+                            let _g = ShimGuard::new();
+                            sim::report(
+                                "C11",
+                                "stream-hangs",
+                                &format!(
+                                    "signal-hook-tokio: poll_next returned Pending; a wake-up byte is sitting in the self-pipe and the reactor turned {} times, but the task's waker was never woken (no waker was registered by that poll_next): the stream hangs (closed: invoked {:?}, returned {:?})",
+                                    turns_without_wake,
+                                    w().close_invoked,
+                                    w().close_returned
+                                ),
+                                true,
+                            );
+                        }
+                    } else {
+                        sighook_shim::hook::block_until_readable(read_fd);
+                    }
+                }
+            }
+        }
+    }
+    drop(st);
+    drop(_enter);
+    let _g = ShimGuard::new();
+    drop(rt);
+}
+
+/// Sequential conformance of the real async-std/async-io adapter: Pending, then a delivery or
+/// close(), must wake the waker and the next poll must be Ready.  async-io's reactor runs on its
+/// own helper thread, so the only real-time element is a 5 s bound on a wake-up that, on a
+/// correct tree, arrives within microseconds; a hang is the violation itself.
+fn asyncio_conformance(spec: &RunSpec) -> ! {
+    use futures_lite::stream::Stream;
+    use std::pin::Pin;
+    use std::task::{Context, Poll};
+    let close_case = sim::work(2) == 1;
+    let pre_delivery = sim::work(2) == 1;
+    let exf_raw = sim::work(2) == 1;
+    sim::note(&format!("async-io adapter conformance: {} after Pending; a delivery before the first poll: {}; exfiltrator {}", if close_case { "close()" } else { "a delivery" }, pre_delivery, if exf_raw { "WithRawSiginfo" } else { "SignalOnly" }));
+    let cfg = Config { prop: spec.prop.id.to_string(), ..Config::default() };
+    sim::start(cfg);
+    let sig = libc::SIGUSR1;
+    fn drive<E: Exfiltrator>(mut st: signal_hook_async_std::SignalsInfo<E>, sig: i32, close_case: bool, pre_delivery: bool) -> !
+    where
+        E::Output: Out,
+    {
+        let h = st.handle();
+        let cw = std::sync::Arc::new(CountWake(std::sync::atomic::AtomicUsize::new(0)));
+        let waker = std::task::Waker::from(cw.clone());
+        let mut poll = |st: &mut signal_hook_async_std::SignalsInfo<E>| {
+            let mut cx = Context::from_waker(&waker);
+            Pin::new(st).poll_next(&mut cx)
+        };
+        if pre_delivery {
+            do_delivery(sig, false);
+            // drain: first poll(s) must hand the signal out
+            let mut got = false;
+            for _ in 0..3 {
+                if let Poll::Ready(Some(o)) = poll(&mut st) {
+                    record_yield(&o);
+                    got = true;
+                    break;
+                }
+                std::thread::sleep(std::time::Duration::from_millis(20));
+            }
+            if !got {
+                sim::report("C09", "signal-lost", "async-std adapter: a delivery made before the first poll was not reported by the first polls", true);
+            }
+        }
+        let mut r = poll(&mut st);
+        let mut guard = 0;
+        while let Poll::Ready(Some(o)) = r {
+            record_yield(&o);
+            r = poll(&mut st);
+            guard += 1;
+            if guard > 10 {
+                sim::harness_error("async-io conformance: stream keeps yielding");
+            }
+        }
+        if !matches!(r, Poll::Pending) {
+            sim::report("C11", "closed-reported-while-open", "async-std adapter: the stream ended although the instance is open", true);
+        }
+        sim::mark_nontrivial();
+        cw.0.store(0, std::sync::atomic::Ordering::SeqCst);
+        if close_case {
+            do_close(&h, "the handle");
+        } else {
+            do_delivery(sig, false);
+        }
+        let t0 = std::time::Instant::now();
+        while cw.0.load(std::sync::atomic::Ordering::SeqCst) == 0 {
+            if t0.elapsed().as_secs() >= 5 {
+                sim::report(
+                    "C11",
+                    "stream-hangs",
+                    &format!("signal-hook-async-std: poll_next returned Pending, then {} happened, but the task's waker was not woken within 5 s: the stream hangs", if close_case { "close()" } else { "a delivery" }),
+                    true,
+                );
+            }
+            std::thread::sleep(std::time::Duration::from_micros(200));
+        }
+        match poll(&mut st) {
+            Poll::Ready(None) if close_case => {}
+            Poll::Ready(Some(o)) if !close_case => record_yield(&o),
+            other => sim::report(
+                if close_case { "C11" } else { "C09" },
+                "poll-after-wakeup",
+                &format!("async-std adapter: after the wake-up the next poll returned {} instead of {}", match other { Poll::Pending => "Pending", Poll::Ready(None) => "end of stream", _ => "a signal" }, if close_case { "end of stream" } else { "the signal" }),
+                true,
+            ),
+        }
+        sim::finish_ok()
+    }
+    if exf_raw {
+        drive(signal_hook_async_std::SignalsInfo::<WithRawSiginfo>::new(&[sig]).expect("async-std Signals"), sig, close_case, pre_delivery)
+    } else {
+        drive(signal_hook_async_std::SignalsInfo::<SignalOnly>::new(&[sig]).expect("async-std Signals"), sig, close_case, pre_delivery)
+    }
+}
+
+// ---------------------------------------------------------------------------------------------
 
 fn classify(info: &DeadlockInfo) -> (String, String, String) {
     let x = w();
@@ -598,6 +782,9 @@ fn do_add(h: &Handle, sig: i32) {
 }
 
 enum Inst {
+    TOnly(tokio::runtime::Runtime, signal_hook_tokio::SignalsInfo<SignalOnly>, i32),
+    TRaw(tokio::runtime::Runtime, signal_hook_tokio::SignalsInfo<WithRawSiginfo>, i32),
+    TOrigin(tokio::runtime::Runtime, signal_hook_tokio::SignalsInfo<WithOrigin>, i32),
     SOnly(SignalsInfo<SignalOnly>),
     SRaw(SignalsInfo<WithRawSiginfo>),
     SOrigin(SignalsInfo<WithOrigin>),
@@ -635,8 +822,16 @@ pub fn run(spec: &RunSpec) -> ! {
     sighook_shim::shm::put_str(&mut sh.crash_prop, "C07");
 
     // ---- scenario
+    // a slice of the C09-C11 runs drives the real async adapters instead of the stub reactor
+    let adapter_tokio = (prop == "C11" || prop == "C09") && spec.run % 8 == 7;
+    if prop == "C11" && spec.run % 64 == 6 {
+        w().watched.push((libc::SIGUSR1, 0, Some(0)));
+        w().consumer_tid = 0;
+        asyncio_conformance(spec);
+    }
     let mode = [Mode::Wait, Mode::Forever, Mode::Pending, Mode::Poll][sim::work(4) as usize];
     let mode = if prop == "C11" && sim::work(2) == 0 { Mode::Poll } else { mode };
+    let mode = if adapter_tokio { Mode::Tokio } else { mode };
     let exf = sim::work(3) as u8;
     let mut pool: Vec<i32> = SIGS.to_vec();
     let nw = 1 + sim::work(2) as usize;
@@ -731,7 +926,37 @@ pub fn run(spec: &RunSpec) -> ! {
         unsafe { signal_hook_registry::register(u, || ()).expect("register unwatched") };
     }
     let with_pipe = matches!(mode, Mode::Pending | Mode::Poll);
-    let inst: Inst = if with_pipe {
+    let inst: Inst = if mode == Mode::Tokio {
+        let rt = {
+            let _g = ShimGuard::new();
+            tokio::runtime::Builder::new_current_thread().enable_io().build().expect("tokio runtime")
+        };
+        // the adapter's socket pair gets the two lowest free descriptor numbers: learn them
+        let (a, b) = UnixStream::pair().expect("socketpair");
+        let read_fd = a.as_raw_fd();
+        drop(a);
+        drop(b);
+        w().read_fd = read_fd;
+        let _e = rt.enter();
+        let i = match exf {
+            0 => {
+                let s = signal_hook_tokio::SignalsInfo::<SignalOnly>::new(initial.iter()).expect("tokio Signals");
+                drop(_e);
+                Inst::TOnly(rt, s, read_fd)
+            }
+            1 => {
+                let s = signal_hook_tokio::SignalsInfo::<WithRawSiginfo>::new(initial.iter()).expect("tokio Signals");
+                drop(_e);
+                Inst::TRaw(rt, s, read_fd)
+            }
+            _ => {
+                let s = signal_hook_tokio::SignalsInfo::<WithOrigin>::new(initial.iter()).expect("tokio Signals");
+                drop(_e);
+                Inst::TOrigin(rt, s, read_fd)
+            }
+        };
+        i
+    } else if with_pipe {
         let (rd, wr) = UnixStream::pair().expect("socketpair");
         rd.set_nonblocking(true).ok();
         for _ in 0..prefill {
@@ -751,6 +976,9 @@ pub fn run(spec: &RunSpec) -> ! {
         }
     };
     let handle: Handle = match &inst {
+        Inst::TOnly(_, s, _) => s.handle(),
+        Inst::TRaw(_, s, _) => s.handle(),
+        Inst::TOrigin(_, s, _) => s.handle(),
         Inst::SOnly(s) => s.handle(),
         Inst::SRaw(s) => s.handle(),
         Inst::SOrigin(s) => s.handle(),
@@ -762,6 +990,9 @@ pub fn run(spec: &RunSpec) -> ! {
 
     // ---- threads
     let consumer = sim::spawn("consumer", move || match inst {
+        Inst::TOnly(rt, s, fd) => consume_tokio(rt, s, fd),
+        Inst::TRaw(rt, s, fd) => consume_tokio(rt, s, fd),
+        Inst::TOrigin(rt, s, fd) => consume_tokio(rt, s, fd),
         Inst::SOnly(s) => consume_signals(mode, s),
         Inst::SRaw(s) => consume_signals(mode, s),
         Inst::SOrigin(s) => consume_signals(mode, s),
